@@ -173,8 +173,11 @@ class LeanDriver:
         if not self.requests:
             return []
         inp = "\n".join(self.requests) + "\n"
-        proc = subprocess.run(["lake", "env", "lean", "--run", "Driver.lean"], cwd=LEAN_DIR, input=inp,
-                              capture_output=True, text=True, timeout=timeout)
+        exe = os.path.join(LEAN_DIR, ".lake", "build", "bin", "driver")
+        # the compiled driver (lean_exe, no Mathlib in its imports) is 10-100x faster; `lean --run` is the fallback
+        cmd = [exe] if os.path.exists(exe) and not os.environ.get("SCODA_DRIVER_INTERPRETED") \
+            else ["lake", "env", "lean", "--run", "Driver.lean"]
+        proc = subprocess.run(cmd, cwd=LEAN_DIR, input=inp, capture_output=True, text=True, timeout=timeout)
         if proc.returncode != 0:
             raise RuntimeError(f"Lean driver failed (exit {proc.returncode}):\n{proc.stderr[-4000:]}\n{proc.stdout[-2000:]}")
         answers = proc.stdout.split("\n")
